@@ -9,7 +9,8 @@
 From PG Require Import Common.Tactics Model.Typing Proofs.TypingBasics Proofs.TypingApply
                        Proofs.TypingCompat Proofs.TypingExtend Proofs.TypingDict Proofs.TypingApplyDict
                        Proofs.TypingCompatDict Proofs.TypingUnion Proofs.TypingUnionCompat Proofs.TypingTheorems
-                       Proofs.TypingExtendFrozen Proofs.TypingUnionExtend Proofs.TypingExtendDict.
+                       Proofs.TypingExtendFrozen Proofs.TypingUnionExtend Proofs.TypingExtendDict
+                       Proofs.TypingPyEq Proofs.TypingExtendFrozenBase.
 Local Open Scope Z_scope.
 
 (* Applying a spec to a value it accepts yields a value it accepts again and maps to itself:
@@ -227,3 +228,16 @@ Theorem C04_schema_compat_sound_partial : forall q fs m ofs mb,
   forall v, total v = true -> conforms (SDict (Some ofs) mb) v -> accepts (SDict (Some fs) m) v.
 Proof. exact schema_compat_sound. Qed.
 Print Assumptions C04_schema_compat_sound_partial.
+
+(* A frozen base: the child must itself be frozen to an == value (else the extension is refused);
+   the result stays frozen to a value == the base's, the base is compatible with it and accepts
+   it.  (Python's == on the modelled values is symmetric and transitive, and apply returns a value
+   == to a total input.)  Base not an Enum; no Union / Dict schema. *)
+Theorem C04_extend_frozen_base_partial : forall q c b c',
+  no_quirks q -> goodf c -> basef (unfreeze b) -> is_enum b = false ->
+  frozen (mods_of c) = true -> frozen (mods_of b) = true ->
+  total (dflt (mods_of c)) = true ->
+  extend q c b = Ok c' ->
+  compat q b c' = true /\ (forall v, total v = true -> conforms c' v -> accepts b v).
+Proof. exact extend_frozen_base. Qed.
+Print Assumptions C04_extend_frozen_base_partial.
